@@ -97,6 +97,8 @@ with notrace():
                     continue
                 if 'p' in flags and home in ('bridge', 'derived'):
                     continue
+                if 'b' in flags and home != 'bridge':
+                    continue
                 if 's' not in flags and home == 'derived' and name not in ('assign_scalars', 'if_elif_else', 'select_related'):
                     continue
                 CASES.append(('core', name, home, text))
